@@ -70,6 +70,7 @@ def expr(e):
     raise ValueError("cannot render expression kind %r" % k)
 
 
+INLINE_BODIES = False     # layout: a function / method body of one simple statement on the line of its header (`def f(x) => x + 1`)
 EXTRA_PARENS = False      # C14: wrap every compound operand in one more (redundant) pair of parentheses
 
 
@@ -106,6 +107,17 @@ class R:
             return
         for j, s in enumerate(stmts):
             self.stmt(s, ind, "%s.%d" % (path, j) if path else str(j))
+
+    def one_line(self, s):
+        """the statement as the one-line body of a function (`def f(..) => stmt`), or None when it needs a block"""
+        if s["k"] == "expr":
+            return expr(s["e"])
+        if s["k"] == "pass":
+            return "pass"
+        try:
+            return self.simple(s)
+        except ValueError:
+            return None
 
     def simple(self, s):
         """text of a statement that fits on one line (used for the guarded statement of a handle)"""
@@ -205,6 +217,8 @@ class R:
                 head += " raise [%s]" % ", ".join(s["raises"])
             if s.get("abstract"):
                 self.emit(ind, head)
+            elif INLINE_BODIES and len(s["b"]) == 1 and self.one_line(s["b"][0]) is not None:
+                self.emit(ind, head + " => " + self.one_line(s["b"][0]))
             else:
                 self.emit(ind, head + " =>")
                 self.block(s["b"], ind + 1, path + ".b")
